@@ -406,6 +406,76 @@ def main():
         known_or_report("C12-not-atomic", f"a MERGE whose INSERT step fails leaves the DELETE step applied: {o['t']}", {"impl": o})
     elif not o["err"]:
         report("atomic-probe", "the NOT NULL probe did not fail", {"impl": o})
+    # (4b) MERGE is DML: inside BEGIN ... ROLLBACK / COMMIT it is part of the session's transaction, together with earlier work,
+    #      and invisible to another session until committed (oracle: the transaction semantics of C13's model)
+    def dump_(c, tbl):
+        return sorted([[[v] if v is not None else [] for v in r] for r in c.cursor().execute(f"select * from {tbl}").fetchall()])
+
+    tx_done = 0
+    for case, sql, m in zip(cases, sqls, mo):
+        if tx_done >= (30 if ck.tier == "thorough" else 8):
+            break
+        m_t = sorted(m[0])
+        if not (m[3] and m_t != sorted(case[1])):          # inside dom and the merge changes the target
+            continue
+        tx_done += 1
+        ck.cov["evaluations"] += 1
+        ck.count("tx-envelope")
+        fs_t, c1 = fsutil.fresh()
+        c2 = fs_t.connect(database="DB1", schema="S1")
+        cur1 = c1.cursor()
+        cur1.execute("create table t (c0 int, c1 int, c2 int)")
+        cur1.execute("create table s (d0 int, d1 int, d2 int)")
+        cur1.execute("create table aux (x int)")
+        if case[1]:
+            cur1.execute(f"insert into t values {r_rows(case[1])}")
+        if case[2]:
+            cur1.execute(f"insert into s values {r_rows(case[2])}")
+        rep = {"sql": sql, "target": case[1], "source": case[2]}
+        try:
+            cur1.execute("begin")
+            cur1.execute("insert into aux values (1)")
+            cur1.execute(sql)
+            inside, other = dump_(c1, "t"), dump_(c2, "t")
+            c1.cursor().execute("rollback")
+            after_rb = (dump_(c1, "t"), dump_(c1, "s"), dump_(c1, "aux"))
+            cur1.execute("begin")
+            cur1.execute(sql)
+            c1.commit()
+            c1.rollback()
+            after_c = (dump_(c1, "t"), dump_(c2, "t"))
+        except Exception as e:  # noqa: BLE001
+            report("tx-error", f"begin; insert; `{sql}`; rollback; begin; merge; commit raised {type(e).__name__}: {str(e)[:120]}", rep)
+            fs_t.duck_conn.close()
+            continue
+        fs_t.duck_conn.close()
+        if inside != m_t:
+            report("tx-inside", f"inside a transaction `{sql}` leaves {inside}, outside one {m_t}", dict(rep, inside=inside))
+        if other != sorted(case[1]):
+            report("tx-visible", f"another session sees {other} while the transaction containing `{sql}` is open (committed state: {sorted(case[1])})", dict(rep, other=other))
+        if after_rb != (sorted(case[1]), sorted(case[2]), []):
+            report("tx-rollback", f"begin; insert into aux; `{sql}`; rollback leaves target/source/aux = {after_rb}, before the transaction: {(sorted(case[1]), sorted(case[2]), [])}", dict(rep, after=after_rb))
+        if after_c != (m_t, m_t):
+            report("tx-commit", f"begin; `{sql}`; commit; rollback leaves {after_c[0]} (other session: {after_c[1]}), expected {m_t}", dict(rep, after=after_c))
+    # a MERGE that fails half-way inside a transaction, then ROLLBACK: nothing of it stays
+    fs_t, c1 = fsutil.fresh()
+    cur1 = c1.cursor()
+    cur1.execute("create table t (c0 int, c1 int, c2 int not null)")
+    cur1.execute("create table s (d0 int, d1 int, d2 int)")
+    cur1.execute(f"insert into t values {r_rows(T)}")
+    cur1.execute(f"insert into s values {r_rows(Sx)}")
+    cur1.execute("begin")
+    try:
+        cur1.execute(render(ck.rng, m_at))
+        failed = False
+    except Exception:  # noqa: BLE001
+        failed = True
+    c1.cursor().execute("rollback")
+    left = dump_(c1, "t")
+    fs_t.duck_conn.close()
+    ck.cov["evaluations"] += 1
+    if not failed or left != sorted(T):
+        report("tx-failed-merge", f"begin; <MERGE whose INSERT step fails>; rollback leaves {left}, before the transaction {sorted(T)} (failed={failed})", {"sql": render(ck.rng, m_at), "left": left})
     # (5) forms the property quantifies over but fakesnow cannot parse
     for fid, sql in [("C12-alias-unsupported", "merge into t as tt using s as ss on tt.c0 = ss.d0 when matched then update set c1 = ss.d1"),
                      ("C12-qualified-unsupported", "merge into db1.s1.t using db1.s1.s on t.c0 = s.d0 when matched then delete"),
@@ -451,7 +521,7 @@ def main():
     ck.cov["samples"] += [{"sql": sqls[0]}, {"sql": sqls[len(fixed) + 1], "target": cases[len(fixed) + 1][1], "source": cases[len(fixed) + 1][2]}]
     return ck.finish(rule="random merges (0-5 target/source rows, NULL and duplicate keys, 1-4 clauses in any kind/order, 3VL conditions on either side, column lists, subquery sources, keyword case): "
                           "implementation vs model (target multiset + status row) everywhere; Coq spec vs independent Python spec; implementation vs spec on every deterministic merge; "
-                          "source untouched; failing-half-way probe vs the model's statement prefix; non-trivial = >= 2 clauses and >= 2 candidate rows")
+                          "source untouched; failing-half-way probe vs the model's statement prefix; transaction envelope (BEGIN; earlier DML; MERGE; ROLLBACK / COMMIT, second session, failing MERGE then ROLLBACK);  non-trivial = >= 2 clauses and >= 2 candidate rows")
 
 
 if __name__ == "__main__":
